@@ -27,7 +27,7 @@ def jobs(tier, seed):
     for m in ([2, 3, 4] if tier == "quick" else list(range(2, 17))):
         js.append(Job(f"C14/empi/{m}", "contracts.C14:job_empi", dict(m=m, seed=seed, timeout_s=t)))
     from .C02 import e2_jobs
-    js += e2_jobs("C14", ["contracts.C14_e2:SeededGeneration", "contracts.C14_e2:SampleRouting", "contracts.C14_e2:ResetSeed"], tier, seed)
+    js += e2_jobs("C14", ["contracts.C14_e2:SeededGeneration", "contracts.C14_e2:SampleRouting", "contracts.C14_e2:ResetSeed", "contracts.C14_e2:DatasetSeeds"], tier, seed)
     return js
 
 CLAIM = {'engine': 'E1-pyvc + E2-symtwin', 'level': 'proof',
